@@ -111,6 +111,33 @@ def run_single(name, servers, ip, extra=(), unresolvable=False, policy=None):
     return code, out
 
 
+def server_from_spec(spec):
+    """a scripted target from a JSON-able description (used for randomly generated fleets, here and in the isolated reference processes)"""
+    hostkeys = {}
+    for t in spec['key']:
+        if t in ('ssh-rsa', 'rsa-sha2-256', 'rsa-sha2-512'):
+            hostkeys[t] = fn.rsa_blob(spec.get('rsa_bits', 3072))
+        elif t == 'ssh-ed25519':
+            hostkeys[t] = fn.ed25519_blob()
+        elif t == 'ssh-dss':
+            hostkeys[t] = fn.dss_blob(1024)
+    gb = spec.get('gex_bits')
+    return fn.simple_server(kex=tuple(spec['kex']), key=tuple(spec['key']), enc=tuple(spec['enc']), mac=tuple(spec['mac']), banner=spec['banner'].encode(), hostkeys=hostkeys,
+                            gex=(lambda mn, pf, mx: gb if gb and mn <= gb <= mx else (None if not gb or mx < gb else gb)))
+
+
+def gen_spec(r, db):
+    pool = {c: [n for n in db[c] if ',' not in n] for c in ('kex', 'key', 'enc', 'mac')}
+    kex = r.sample(['curve25519-sha256', 'diffie-hellman-group-exchange-sha256', 'diffie-hellman-group-exchange-sha1', 'diffie-hellman-group14-sha256', 'ecdh-sha2-nistp256',
+                    'kex-strict-s-v00@openssh.com', 'sntrup761x25519-sha512@openssh.com', 'diffie-hellman-group1-sha1'], r.randint(1, 4)) + r.sample(pool['kex'], r.randint(0, 2))
+    key = r.sample(['ssh-rsa', 'rsa-sha2-256', 'rsa-sha2-512', 'ssh-ed25519', 'ssh-dss', 'ecdsa-sha2-nistp256'], r.randint(1, 3))
+    enc = r.sample(['chacha20-poly1305@openssh.com', 'aes128-cbc', 'aes256-ctr', '3des-cbc', 'aes256-gcm@openssh.com', 'arcfour', 'none'], r.randint(1, 4)) + r.sample(pool['enc'], r.randint(0, 2))
+    mac = r.sample(['hmac-sha2-256-etm@openssh.com', 'hmac-sha1-etm@openssh.com', 'hmac-sha2-256', 'hmac-md5', 'hmac-sha1', 'umac-128-etm@openssh.com'], r.randint(1, 3)) + r.sample(pool['mac'], r.randint(0, 1))
+    return {'kex': list(dict.fromkeys(kex)), 'key': key, 'enc': list(dict.fromkeys(enc)), 'mac': list(dict.fromkeys(mac)),
+            'banner': r.choice(['SSH-2.0-OpenSSH_8.9p1', 'SSH-2.0-OpenSSH_8.9p1', 'SSH-2.0-OpenSSH_7.4', 'SSH-2.0-dropbear_2020.81', 'SSH-2.0-libssh_0.9.6', 'SSH-2.0-Unknown_1.0']),
+            'rsa_bits': r.choice([1024, 2048, 3072, 4096]), 'gex_bits': r.choice([None, 1024, 2048, 3072, 4096])}
+
+
 ISOLATED_BOOT = r'''
 import json, sys
 sys.path.insert(0, %(harness)r)
@@ -122,6 +149,9 @@ servers.update(mc.fail_servers())
 servers.update(mc.edit_then_abort_servers())
 res = []
 for name, ip, extra in json.loads(sys.argv[1]):
+    if isinstance(name, dict):
+        servers = dict(servers, spec=mc.server_from_spec(name))
+        name = 'spec'
     code, out = mc.run_single(name, servers, ip, extra)
     res.append([code, out])
 print(json.dumps(res))
@@ -133,7 +163,7 @@ def isolated_singles(keys, par=8):
     scan left in module- or class-level state can leak into the reference.  keys: [(archetype name, ip, extra args)] -> {key: (exit, stdout)}"""
     import subprocess
     import sys as _sys
-    keys = list(dict.fromkeys((n, ip, tuple(e)) for n, ip, e in keys))
+    keys = list(dict.fromkeys((n if isinstance(n, str) else json.dumps(n, sort_keys=True), ip, tuple(e)) for n, ip, e in keys))
     here = os.path.dirname(os.path.dirname(os.path.abspath(__file__)))
     boot = ISOLATED_BOOT % {'harness': here}
     procs, out = [], {}
@@ -141,7 +171,7 @@ def isolated_singles(keys, par=8):
     while pending or procs:
         while pending and len(procs) < par:
             k = pending.pop(0)
-            procs.append((k, subprocess.Popen([_sys.executable, '-c', boot, json.dumps([[k[0], k[1], list(k[2])]])], stdout=subprocess.PIPE, stderr=subprocess.PIPE,
+            procs.append((k, subprocess.Popen([_sys.executable, '-c', boot, json.dumps([[json.loads(k[0]) if k[0].startswith('{') else k[0], k[1], list(k[2])]])], stdout=subprocess.PIPE, stderr=subprocess.PIPE,
                                               env=dict(os.environ, PYTHONDONTWRITEBYTECODE='1'))))
         k, pr = procs.pop(0)
         so, se = pr.communicate(timeout=300)
